@@ -819,16 +819,6 @@ theorem C08_idle_parent_no_file (f : Forest) (depth : Nat → Nat) (hr : f.Ranke
   subst hnk
   rw [hp] at hpn; cases hpn
 
-/-- the seeded variant `not parent_is_running`: the same event leaves a file in the child's directory -/
-theorem C08_parent_idle_variant_witness :
-    exForest.recoveryFilesPR 3 [0, 1, 2, 3, 4, 5] [⟨3, fun _ => false⟩] = [3] ∧
-    exForest.recoveryFilesEv 3 [0, 1, 2, 3, 4, 5] [⟨3, fun _ => false⟩] = [] ∧
-    -- … and a node run while its for-loop / macro is being assembled inside a run of the root (`5` raises, its parent `4`
-    -- is not running yet, then `4` raises with `2` and `0` running): variant two files, the code one — the root's
-    exForest.recoveryFilesPR 3 [0, 1, 2, 3, 4, 5] [⟨5, fun i => i == 0 || i == 2⟩, ⟨4, fun i => i == 0 || i == 2⟩] = [0, 5] ∧
-    exForest.recoveryFilesEv 3 [0, 1, 2, 3, 4, 5] [⟨5, fun i => i == 0 || i == 2⟩, ⟨4, fun i => i == 0 || i == 2⟩] = [0] := by
-  decide +kernel
-
 /-- a checkpoint of any child, however deep, goes to the root's directory as well -/
 theorem C08_checkpoint_at_root (f : Forest) (depth : Nat → Nat) (hr : f.Ranked depth) (fuel c : Nat)
     (hc : depth c ≤ fuel) :
@@ -991,6 +981,17 @@ def exForest : Forest :=
 example : exForest.recoveryFiles 3 [0, 1, 2, 3, 4, 5] [5, 1] = [0] := by decide +kernel
 example : [0, 1, 2, 3, 4, 5].filter (exForest.failedNodes 3 [5, 1]) = [0, 1, 2, 4, 5] := by decide +kernel
 example : exForest.checkpointDir 3 5 = 0 := by decide +kernel
+
+/-- the seeded variant `not parent_is_running`: the same event leaves a file in the child's directory -/
+theorem C08_parent_idle_variant_witness :
+    exForest.recoveryFilesPR 3 [0, 1, 2, 3, 4, 5] [⟨3, fun _ => false⟩] = [3] ∧
+    exForest.recoveryFilesEv 3 [0, 1, 2, 3, 4, 5] [⟨3, fun _ => false⟩] = [] ∧
+    -- … and a node run while its for-loop / macro is being assembled inside a run of the root (`5` raises, its parent `4`
+    -- is not running yet, then `4` raises with `2` and `0` running): variant two files, the code one — the root's
+    exForest.recoveryFilesPR 3 [0, 1, 2, 3, 4, 5] [⟨5, fun i => i == 0 || i == 2⟩, ⟨4, fun i => i == 0 || i == 2⟩] = [0, 5] ∧
+    exForest.recoveryFilesEv 3 [0, 1, 2, 3, 4, 5] [⟨5, fun i => i == 0 || i == 2⟩, ⟨4, fun i => i == 0 || i == 2⟩] = [0] := by
+  decide +kernel
+
 example : exForest.recoveryFilesR (fun n => n != 0) 3 [0, 1, 2, 3, 4, 5] [5, 1] = [] := by decide +kernel
 
 end PwVerif.C08
